@@ -4,6 +4,7 @@ import (
 	"fmt"
 	"go/token"
 	"go/types"
+	"strings"
 
 	"golang.org/x/tools/go/ssa"
 )
@@ -116,8 +117,10 @@ func (in *Interp) vfCall(fr *frame, fn *ssa.Function, args []Value, pos token.Po
 		return in.structEq(args[0], args[1])
 	case "ExactCmp":
 		return in.exactCmp(args[0], args[1])
-	case "CrashPoint":
-		return in.crashPoint(fr, str(args[0]), pos)
+	case "RunUntilCrash":
+		return in.runUntilCrash(fr, args[0], pos)
+	case "FSTrace":
+		return StrV(strings.Join(in.fs().trace, "; "))
 	case "FS":
 		return in.fsCall(fr, args, pos)
 	}
